@@ -17,7 +17,7 @@ ENGINE = "E-SEAM+E-SCEN"
 TECHNIQUE = "exhaustive enumeration of categorical level assignments (fitting / holdout / unexpected rows) x featurizer configurations through the real Featurizer with a statement-derived reference; solver-seam decoding of every design-matrix row in real estimate runs"
 RULE = (
     "(a) frames of 3 fitting rows + 2 holdout rows + 1 unexpected row; one fixed effect: every assignment of levels {a,b,c} to the 6 rows (unexpected "
-    "also missing) ; two fixed effects: every assignment of the first over {a,b,c} x second over {p,q} on a covering slice; x selected levels {all,[a],[a,b]} "
+    "also missing) ; two fixed effects: every assignment of the first over {a,b,c} x second over {p,q} and over {p,q,r} on a covering slice (thorough: complete), and both effects with selected levels over shared level names; x selected levels {all,[a],[a,b]} "
     "x features {none,[x],[baseline_normalized_margin,x]} x centring on/off x separate-state models {none,[AA],[BB without reporting unit]} x intercept on "
     "(off only without fixed effects), each assignment also with repeating row labels (as produced by concatenating frames). Oracle: fit and predict column lists equal and ordered intercept / baseline-margin / rest; per effect exactly one "
     "observed level absorbed; every fitted dummy non-constant on fitting rows; seen level => its indicator, unseen => 1/(k+1) on each fitted level; centring "
@@ -32,7 +32,7 @@ LV = ["a", "b", "c"]
 
 
 def bounds(tier):
-    return {"rows": "3 fitting + 2 holdout + 1 unexpected", "levels": LV, "second_effect_levels": ["p", "q"], "b_runs": "3 estimators x fixed-effect layouts x probes with unseen levels"}
+    return {"rows": "3 fitting + 2 holdout + 1 unexpected" + ("; and 4 + 2 + 1 over levels a-d" if tier == "thorough" else ""), "levels": LV, "second_effect_levels": ["p", "q"], "b_runs": "3 estimators x fixed-effect layouts x probes with unseen levels"}
 
 
 def cases(tier, seed):
@@ -45,10 +45,29 @@ def cases(tier, seed):
     b2 = list(itertools.product(["p", "q"], repeat=5))
     for i in range(0, len(a2), 27):
         out.append({"kind": "feat2", "first": [list(a) for a in a2[i : i + 27]], "second": [list(b) for b in (b2 if tier == "thorough" else b2[:: 3])]})
+    # the second effect over three levels: it can then have fitted dummies *and* a level seen only in the holdout rows while
+    # every level of the first effect was seen in fitting (and the other way round)
+    b3 = list(itertools.product(["p", "q", "r"], repeat=5))
+    for i in range(0, len(a2), 27):
+        out.append({"kind": "feat2", "first": [list(a) for a in a2[i : i + 27]], "second": [list(b) for b in (b3 if tier == "thorough" else b3[:: 5])]})
+    # both effects with user-selected levels, and the two columns share level names (a level selected for one effect is an
+    # unselected level of the other)
+    b2s = list(itertools.product(["a", "b"], repeat=5))
+    for i in range(0, len(a2), 27):
+        for sel, sel2 in (("a", "b"), ("ab", "b"), ("a", "a")):
+            out.append({"kind": "feat2", "first": [list(a) for a in a2[i : i + 27]], "second": [list(b) for b in (b2s if tier == "thorough" else b2s[:: 3])], "sel": sel, "sel2": sel2})
+    if tier == "thorough":
+        # 4 fitting + 2 holdout + 1 unexpected rows over four levels (all 4^6 x 5 assignments)
+        lv4 = LV + ["d"]
+        big = list(itertools.product(lv4, lv4, lv4, lv4, lv4, lv4, lv4 + [None]))
+        for i in range(0, len(big), 160):
+            for sel in ("all", "a", "ab"):
+                out.append({"kind": "feat1", "nf": 4, "assigns": [list(a) for a in big[i : i + 160]], "sel": sel})
     for pm in ("nonparametric", "gaussian", "bootstrap"):
         for fe in ("county_classification", "county_fips", "both"):
             for probes in ("seen", "unseen", "mixed"):
-                out.append({"kind": "rows", "pm": pm, "fe": fe, "probes": probes, "seed": seed})
+                for sd in [seed] if tier == "quick" else [seed, seed + 1, seed + 2]:
+                    out.append({"kind": "rows", "pm": pm, "fe": fe, "probes": probes, "seed": sd})
     return out
 
 
@@ -64,27 +83,35 @@ def describe(case):
 # (a) reference featurizer
 
 
-def _frame(levels1, levels2=None):
+def _frame(levels1, levels2=None, nf=3):
     import pandas as pd
 
     rows = []
-    xs = [0.5, 2.0, 3.5, 7.0, 11.0, None]
-    ms = [0.1, -0.2, 0.3, 0.05, -0.4, None]
-    states = ["AA", "AA", "CC", "AA", "BB", "AA"]
-    for i in range(6):
+    if nf == 3:
+        xs = [0.5, 2.0, 3.5, 7.0, 11.0, None]
+        ms = [0.1, -0.2, 0.3, 0.05, -0.4, None]
+        states = ["AA", "AA", "CC", "AA", "BB", "AA"]
+    else:
+        xs = [0.5, 2.0, 3.5, 5.0, 7.0, 11.0, None]
+        ms = [0.1, -0.2, 0.3, 0.15, 0.05, -0.4, None]
+        states = ["AA", "AA", "CC", "AA", "AA", "BB", "AA"]
+    for i in range(nf + 3):
         rows.append(
             {
                 "postal_code": states[i],
-                "reporting": 1 if i < 3 else 0,
-                "unit_category": "expected" if i < 5 else "unexpected",
+                "reporting": 1 if i < nf else 0,
+                "unit_category": "expected" if i < nf + 2 else "unexpected",
                 "fe1": levels1[i],
                 "x": xs[i],
                 "baseline_normalized_margin": ms[i],
             }
         )
         if levels2 is not None:
-            rows[-1]["fe2"] = levels2[i] if i < 5 else levels2[0]
+            rows[-1]["fe2"] = levels2[i] if i < nf + 2 else levels2[0]
     return pd.DataFrame(rows)
+
+
+SEL = {"a": ["a"], "ab": ["a", "b"], "b": ["b"]}
 
 
 def _pool(level, sel):
@@ -92,11 +119,10 @@ def _pool(level, sel):
         return None
     if sel == "all":
         return level
-    keep = {"a": ["a"], "ab": ["a", "b"]}[sel]
-    return level if level in keep else "other"
+    return level if level in SEL[sel] else "other"
 
 
-def _check_featurizer(df, effects, sel, feats, center, states, intercept, viol, cov, ctx, labels=None):
+def _check_featurizer(df, effects, sel, feats, center, states, intercept, viol, cov, ctx, labels=None, nf=3, sel2="all"):
     if labels is not None:
         df = df.copy()
         df.index = labels
@@ -105,12 +131,13 @@ def _check_featurizer(df, effects, sel, feats, center, states, intercept, viol, 
 
     from elexmodel.handlers.data.Featurizer import Featurizer
 
-    fe_arg = {e: ("all" if (sel == "all" or e != "fe1") else {"a": ["a"], "ab": ["a", "b"]}[sel]) for e in effects}
+    sels = {"fe1": sel, "fe2": sel2}
+    fe_arg = {e: ("all" if sels[e] == "all" else list(SEL[sels[e]])) for e in effects}
     f = Featurizer(list(feats), fe_arg if effects else [], states_for_separate_model=list(states))
     try:
         x_all = f.prepare_data(df, center_features=center, scale_features=False, add_intercept=intercept)
-        fit = f.filter_to_active_features(x_all[:3])
-        pred = f.generate_holdout_data(x_all[3:5])
+        fit = f.filter_to_active_features(x_all[:nf])
+        pred = f.generate_holdout_data(x_all[nf : nf + 2])
     except Exception as e:
         viol("featurizer-raised", f"{ctx}: {type(e).__name__}: {e}")
         return False
@@ -131,9 +158,9 @@ def _check_featurizer(df, effects, sel, feats, center, states, intercept, viol, 
         viol("intercept-values", f"{ctx}: intercept column {fit['intercept'].tolist()}")
     nontrivial = False
     for e in effects:
-        s_e = sel if e == "fe1" else "all"
-        fitlv = [_pool(v, s_e) for v in df[e][:3]]
-        holdlv = [_pool(v, s_e) for v in df[e][3:5]]
+        s_e = sels[e]
+        fitlv = [_pool(v, s_e) for v in df[e][:nf]]
+        holdlv = [_pool(v, s_e) for v in df[e][nf : nf + 2]]
         alllv = [_pool(v, s_e) for v in df[e]]
         observed = sorted(set(fitlv))
         dcols = [c for c in fc if c.startswith(e + "_")]
@@ -161,6 +188,8 @@ def _check_featurizer(df, effects, sel, feats, center, states, intercept, viol, 
                 exp = [1.0 / (kk + 1)] * kk
                 nontrivial = True
                 cov["holdout_rows_with_unseen_level"] += 1
+                if e == "fe2" and kk > 0:
+                    cov["second_effect_unseen_level_with_fitted_dummies"] += 1
             if any(abs(g - x) > 1e-12 for g, x in zip(got, exp)):
                 viol("holdout-level-rule", f"{ctx}: holdout row {r} level {lvl!r} (observed in fitting: {observed}) got {dict(zip(dcols, got))}, expected {exp}")
         if set(x for x in alllv if x is not None) - set(observed):
@@ -173,10 +202,10 @@ def _check_featurizer(df, effects, sel, feats, center, states, intercept, viol, 
             mean = vals.mean() if center else 0.0
             exp = (vals - mean).tolist()
             got = list(fit[ft]) + list(pred[ft])
-            if any(abs(g - x) > 1e-9 for g, x in zip(got, exp[:5])):
-                viol("feature-centring", f"{ctx}: feature {ft}: {got} expected {exp[:5]} (centre={center})")
+            if any(abs(g - x) > 1e-9 for g, x in zip(got, exp[: nf + 2])):
+                viol("feature-centring", f"{ctx}: feature {ft}: {got} expected {exp[: nf + 2]} (centre={center})")
     if states:
-        rep_states = set(df.postal_code[:3])
+        rep_states = set(df.postal_code[:nf])
         for st in states:
             for ft in feats:
                 name = f"{ft}_{st}"
@@ -185,7 +214,7 @@ def _check_featurizer(df, effects, sel, feats, center, states, intercept, viol, 
                         viol("state-copy-missing", f"{ctx}: state {st} has reporting units but column {name} is missing: {fc}")
                     else:
                         col = list(fit[name]) + list(pred[name])
-                        outside = [v for v, s in zip(col, df.postal_code[:5]) if s != st]
+                        outside = [v for v, s in zip(col, df.postal_code[: nf + 2]) if s != st]
                         if any(abs(v) > 1e-12 for v in outside):
                             viol("state-copy-leaks", f"{ctx}: column {name} is non-zero outside state {st}: {col}")
                         cov["state_copies_checked"] += 1
@@ -200,12 +229,14 @@ def _check_featurizer(df, effects, sel, feats, center, states, intercept, viol, 
 def _feat_case(case, cov, viol):
     runs = 0
     nontrivial = False
+    nf = case.get("nf", 3)
+    sel2 = case.get("sel2", "all")
     if case["kind"] == "feat1":
         todo = [(a, None) for a in case["assigns"]]
     else:
         todo = [(a + [a[0]], b + [b[0]]) for a in case["first"] for b in case["second"]]
     for idx, (l1, l2) in enumerate(todo):
-        df = _frame(l1, l2)
+        df = _frame(l1, l2, nf)
         effects = ["fe1"] + (["fe2"] if l2 is not None else [])
         sel = case.get("sel", "all")
         variants = [
@@ -218,21 +249,23 @@ def _feat_case(case, cov, viol):
         if case["kind"] == "feat2":
             variants = [variants[idx % 5], variants[(idx + 2) % 5]]
         for feats, center, states, intercept in variants:
-            ctx = f"fe1={l1} fe2={l2} selected={sel} features={feats} centre={center} separate_states={states} intercept={intercept}"
-            nt = _check_featurizer(df, effects, sel, feats, center, states, intercept, viol, cov, ctx)
+            ctx = f"fe1={l1} fe2={l2} selected={sel} selected_fe2={sel2} features={feats} centre={center} separate_states={states} intercept={intercept}"
+            nt = _check_featurizer(df, effects, sel, feats, center, states, intercept, viol, cov, ctx, nf=nf, sel2=sel2)
+            if sel2 != "all" and sel != "all":
+                cov["two_effects_with_selected_levels"] += 1
             nontrivial = nontrivial or bool(nt)
             runs += 1
         # the callers concatenate frames that each carry their own 0..n-1 row labels: labels repeat, also within the holdout rows
         feats, center, states, intercept = variants[idx % len(variants)]
-        ctx = f"fe1={l1} fe2={l2} selected={sel} features={feats} centre={center} separate_states={states} intercept={intercept} row_labels=[0,1,2,0,0,1]"
-        _check_featurizer(df, effects, sel, feats, center, states, intercept, viol, cov, ctx, labels=[0, 1, 2, 0, 0, 1])
+        ctx = f"fe1={l1} fe2={l2} selected={sel} features={feats} centre={center} separate_states={states} intercept={intercept} row_labels=[0..{nf - 1},0,0,1]"
+        _check_featurizer(df, effects, sel, feats, center, states, intercept, viol, cov, ctx, labels=list(range(nf)) + [0, 0, 1], nf=nf, sel2=sel2)
         runs += 1
     if case["kind"] == "feat1" and case["sel"] == "all":
         # without fixed effects: intercept off / on
-        df = _frame(case["assigns"][0])
+        df = _frame(case["assigns"][0], None, nf)
         for intercept in (False, True):
             for feats in (["x"], ["baseline_normalized_margin", "x"]):
-                _check_featurizer(df, [], "all", feats, True, [], intercept, viol, cov, f"no fixed effects features={feats} intercept={intercept}")
+                _check_featurizer(df, [], "all", feats, True, [], intercept, viol, cov, f"no fixed effects features={feats} intercept={intercept}", nf=nf)
                 runs += 1
     return runs, nontrivial
 
@@ -425,4 +458,4 @@ def evaluate(case):
     return {"violations": V, "cov": dict(cov), "outcome": sha([v["sig"] for v in V] + [case["kind"], runs]), "nontrivial": nontrivial, "transitions": max(1, runs)}
 
 
-REQUIRED_COUNTERS = {"featurizer_runs": 5000, "holdout_rows_with_unseen_level": 500, "levels_only_outside_fitting_rows": 500, "fit_rows_decoded": 500, "predict_rows_decoded": 200, "predict_rows_unseen_level": 10, "state_copies_checked": 100, "silent_state_no_copy": 100, "frames_with_duplicate_row_labels": 500}
+REQUIRED_COUNTERS = {"featurizer_runs": 5000, "holdout_rows_with_unseen_level": 500, "levels_only_outside_fitting_rows": 500, "fit_rows_decoded": 500, "predict_rows_decoded": 200, "predict_rows_unseen_level": 10, "state_copies_checked": 100, "silent_state_no_copy": 100, "frames_with_duplicate_row_labels": 500, "two_effects_with_selected_levels": 1000, "second_effect_unseen_level_with_fitted_dummies": 500}
